@@ -409,6 +409,63 @@ void h_GF_ctor(void)
   REACH("exit");
 }
 
+/* ---- copy constructor (GreensFunction.h "Copy-constructor. \param[in] GF GreensFunction object to be copied."; a copy is an
+ * independent object in the same state): every scalar member equals the source's -- Status included --, the references refer to
+ * the same objects, and the parts are deep-copied: one `new GreensFunctionPart(**iter)` per source part, in order, each appended
+ * to the copy's own list (monitor + ghost position of the SOURCE list: copied exactly once).
+ * TRUSTED: the implicit copy constructor of ComputableObject copies Status (its only member); the model asserts that the object
+ * handed to it is the source. Handles of the copied parts: &g_copy_parts[0] + ordinal (distinct from every source handle). */
+struct GreensFunctionPart g_copy_parts[1];
+long g_copies;                    /* copies made of the source part at the ghost position */
+#define ComputableObject_ctor1(base_, src_) ({ \
+  __CPROVER_assert((void *)(src_) == (void *)GF, "ComputableObject(const ComputableObject&): the object copied is the source GF"); \
+  (void)(self->Status = GF->Status); })
+static inline struct GreensFunctionPart *GFPart_copy_monitor(PartList *src, struct GreensFunctionPart *from)
+{
+  long k = src->last_pos;
+  __CPROVER_assert(0 <= k && k < (long)src->n && from == PART_AT(k), "C01 copy: the part copied is the source-list element the iterator is on");
+  __CPROVER_assert((unsigned long)k == g_n_new, "C01 copy: one new part per source part, in order");
+  if (k == src->gidx) g_copies++;
+  g_last_new = &g_copy_parts[0] + g_n_new;
+  g_n_new++;
+  REACH("copy_part");
+  return g_last_new;
+}
+#define GreensFunctionPart_new1(from_) GFPart_copy_monitor(&GF->parts, (from_))
+//@function Pomerol::GreensFunction::GreensFunction(Pomerol::GreensFunction const&) as GreensFunction_ctor1
+//@contract
+__CPROVER_requires(__CPROVER_is_fresh(self, sizeof(*self)) && __CPROVER_is_fresh(GF, sizeof(*GF)))
+/* type invariants of the source: list, Status, MatsubaraSpacing = I*pi/beta (Thermal, h_Thermal_ctor in gfterm.c) */
+__CPROVER_requires(PartList_wf(&GF->parts) && GF->Status <= Computed)
+__CPROVER_requires(C_SAME(GF->MatsubaraSpacing, op_div_cplx_double(op_mul_cplx_double(I, SPEC_PI), GF->beta)))
+__CPROVER_requires(g_n_new == 0 && g_copies == 0)
+__CPROVER_assigns(*self, GF->parts.cur, GF->parts.last_pos, g_n_new, g_last_new, g_copies)
+/* same state: Status, Vanishing, beta, MatsubaraSpacing */
+__CPROVER_ensures(self->Status == GF->Status)
+__CPROVER_ensures(!self->Vanishing == !GF->Vanishing)
+__CPROVER_ensures(D_SAME(self->beta, GF->beta) && C_SAME(self->MatsubaraSpacing, GF->MatsubaraSpacing))
+/* same referenced objects */
+__CPROVER_ensures(self->S == GF->S && self->H.nblocks == GF->H.nblocks && self->DM.nblocks == GF->DM.nblocks && D_SAME(self->DM.beta, GF->DM.beta))
+__CPROVER_ensures(self->C.Status == GF->C.Status && self->C.LeftRightBlocks.left.e == GF->C.LeftRightBlocks.left.e && self->CX.Status == GF->CX.Status && self->CX.LeftRightBlocks.right.e == GF->CX.LeftRightBlocks.right.e)
+/* deep copy of the parts: as many as the source has, all new, the source part at the ghost position copied exactly once; source list unchanged */
+__CPROVER_ensures(self->parts.n == GF->parts.n && g_n_new == GF->parts.n && GF->parts.n == __CPROVER_old(GF->parts.n))
+__CPROVER_ensures(g_copies == ((0 <= GF->parts.gidx && GF->parts.gidx < (long)GF->parts.n) ? 1 : 0))
+//@loop 1
+__CPROVER_assigns(iter.pos, self->parts.n, GF->parts.cur, GF->parts.last_pos, g_n_new, g_last_new, g_copies)
+__CPROVER_loop_invariant(iter.l == &GF->parts && 0 <= iter.pos && iter.pos <= (long)GF->parts.n)
+__CPROVER_loop_invariant(self->parts.n == (unsigned long)iter.pos && g_n_new == (unsigned long)iter.pos)
+__CPROVER_loop_invariant(g_copies == ((0 <= GF->parts.gidx && GF->parts.gidx < iter.pos) ? 1 : 0))
+__CPROVER_decreases((long)GF->parts.n - iter.pos)
+//@end
+
+//@harness h_GF_copy enforce=GreensFunction_init1 props=C01 min_obl=662 timeout=120 reach=2
+void h_GF_copy(void)
+{
+  struct GreensFunction *gf, *src;
+  GreensFunction_init1(gf, src);
+  REACH("exit");
+}
+
 /* =====================================================================================================================
  * WHAT IS PROVED (for all inputs satisfying the stated type invariants), WHAT IS NOT
  *
@@ -431,7 +488,11 @@ void h_GF_ctor(void)
  * h_GF_call_n (operator()(long), GreensFunction_call_z replaced by its contract): the frequency handed on is MatsubaraSpacing*(2n+1) =
  *   (i*pi/beta)*(2n+1), |n| < 2^61 LIMIT (2n+1 in long).
  * h_GF_ctor: Status = Constructed, Vanishing, no parts, beta / MatsubaraSpacing = I*pi/beta of DM, arguments stored in the members of the same name.
- * NOT covered: copy constructor, destructor, getIndex, isVanishing; the value of one part is opaque here (gfterm.c / gfpart.c).
+ * h_GF_copy (copy constructor): Status / Vanishing / beta / MatsubaraSpacing of the copy = the source's (MatsubaraSpacing given the Thermal
+ *   invariant of the source); same S, H, C, CX, DM; one `new GreensFunctionPart(*source part)` per source part, in order, appended to the copy's
+ *   list (monitor), ghost position of the source list copied exactly once; sizes equal; source list not modified.
+ *   TRUSTED: implicit ComputableObject copy constructor copies Status; the copy of ONE part (GreensFunctionPart's implicit copy) is opaque.
+ * NOT covered: destructor, getIndex, isVanishing; the value of one part is opaque here (gfterm.c / gfpart.c).
  *
  * ASSUMPTIONS introduced here: std::list model (push_back appends, size counts, iteration in order; handles canonical); callee stubs
  *   DensityMatrix::isRetained/getPart, Hamiltonian::getPart, FieldOperator::getPartFromLeft/RightIndex (their pre-conditions are asserted);
@@ -449,4 +510,6 @@ void h_GF_ctor(void)
  *   call_z:  !Vanishing -> postcondition.1;  Value -= part -> loop invariant (accumulator != model)
  *   call_n:  2n -> GreensFunction_call_z.precondition.2;   of_tau: of_tau(-tau) -> GreensFunctionPart_of_tau.assertion.3
  *   ctor:    Vanishing(false) -> postcondition.1   (C(CX),CX(C) does not compile)
+ *   copy:    ComputableObject(GF) -> ComputableObject() -> GreensFunction_init1.postcondition.1;  Vanishing(true) -> postcondition.2
+ *            parts.push_back(*iter) (shallow) -> PartList_push_back.assertion.1;  loop stops after 2 parts -> postcondition.6/.7
  */
